@@ -105,3 +105,6 @@ func VerifSymbols(t *SymbolTable) (index, nestedMaxIndex int, global bool, symbo
 	}
 	return t.index, t.nestedMaxIndex, t.outer == nil, symbols
 }
+
+// VerifOuter returns the enclosing symbol table without the side effect of Pop.
+func VerifOuter(t *SymbolTable) *SymbolTable { return t.outer }
